@@ -152,7 +152,8 @@ def oracle(case, line):
                         continue
                     if u in ran and u not in ended and i not in cw_in_cb.get(u, ()):
                         bad.append((kl, "callback %s (post returned before the call) is still running when cancel_callback_and_wait returned on thread %d" % (u, t)))
-                    final[u] = kl
+                    if final.get(u) != "cancel-final":
+                        final[u] = kl
                 snap[t] = None
         if label.startswith("dl_") and snap[t] is not None:
             snap[t][3] = True
